@@ -2756,7 +2756,8 @@ class HasTraits(CHasTraits, metaclass=MetaHasTraits):
             return
         locked = info[""]
         locked[name] = None
-        for object, object_name in info[name].values():
+        # A partner's handlers can unlink partners: walk a copy of the links.
+        for object, object_name in list(info[name].values()):
             object = object()
             if object_name not in object._get_sync_trait_info()[""]:
                 try:
@@ -2780,7 +2781,8 @@ class HasTraits(CHasTraits, metaclass=MetaHasTraits):
             return
         locked = info[""]
         locked[name] = None
-        for object, object_name in info[name].values():
+        # A partner's handlers can unlink partners: walk a copy of the links.
+        for object, object_name in list(info[name].values()):
             object = object()
             if object_name not in object._get_sync_trait_info()[""]:
                 try:
